@@ -42,9 +42,10 @@ type models struct {
 	faultBudget map[string]int
 	faultCount  map[string]int
 	// scheduling
-	noPreempt   int
-	onlyYield   bool
-	mapOrderAll bool
+	noPreempt     int
+	preemptWithin string
+	onlyYield     bool
+	mapOrderAll   bool
 	// memcall shadow page table
 	guard       map[*Value]*regionInfo
 	regionList  []*regionInfo
